@@ -147,13 +147,23 @@ def callable_cell(a, b) -> str | None:
     return None
 
 
+F25_CELL = "contravariant-generic(arguments related by non-proper subtyping only)"
+
+
 def meet_cell(a, b) -> str:
+    """Cell of a failing meet law instance.  F25: `visit_instance` meets the arguments of two instances of the same
+    class whenever `is_subtype` holds one way — also for a contravariant parameter; this is reached only when the
+    proper-subtype shortcuts of `meet_types` did not fire, i.e. the arguments are related through the non-proper
+    `Type[C] <: Callable` rule or through a promotion (`int <: float`)."""
+    from mypy.subtypes import is_proper_subtype, is_subtype
     from mypy.types import Instance, get_proper_type
     pa, pb = get_proper_type(a), get_proper_type(b)
     if (isinstance(pa, Instance) and isinstance(pb, Instance) and pa.type is pb.type and len(pa.args) == 1
-            and getattr(pa.type.defn.type_vars[0], "variance", 0) == 2
-            and {kind(pa.args[0]), kind(pb.args[0])} == {"callable", "type[C]"}):
-        return "contravariant-generic(type[C]|callable)"
+            and getattr(pa.type.defn.type_vars[0], "variance", 0) == 2):
+        x, y = pa.args[0], pb.args[0]
+        if ((is_subtype(x, y) or is_subtype(y, x)) and not is_proper_subtype(x, y, ignore_promotions=True)
+                and not is_proper_subtype(y, x, ignore_promotions=True)):
+            return F25_CELL
     return callable_cell(a, b) or f"{kind(a)}×{kind(b)}"
 
 
